@@ -25,7 +25,7 @@ RULE = (
     "Oracle: own centre parameterisation; every cubic is sampled at 9 parameters and each sample must lie within "
     "0.03% of the corrected ellipse in its unit-circle frame, angles must advance monotonically in the sweep "
     "direction, total swept angle must equal the reference delta-theta (1e-6 rad), first point = start, last "
-    "point == end exactly; near-coincident but distinct end points must still produce segments (end points closer than 1e-6 of the coordinate magnitude are fenced: only no-exception and exact end are required there), zero radius -> one straight line, coincident endpoints -> nothing. "
+    "point == end exactly; near-coincident but distinct end points with the large-arc flag must still produce segments (end points closer than 1e-6 of the coordinate/radius magnitude are fenced: only no-exception and exact end are required there), zero radius -> one straight line, coincident endpoints -> nothing. "
     "Non-trivial = non-degenerate arc with rx != ry and rotation not a multiple of 90 degrees; distinct = distinct argument tuple."
 )
 ASSUMPTIONS = ["reference centre parameterisation (vlib/refsvg/arcref.py) follows SVG implementation notes F.6.5-F.6.6 (self-tested on hand-computed arcs)"]
@@ -97,14 +97,17 @@ def check_arc(case) -> Result:
     # Conditioning fence: end points closer than 1e-6 of the coordinate magnitude make the chord
     # direction (a difference of nearly equal floats) meaningless to ~1e-10 and worse; any
     # implementation loses the 0.03% there.  Such cases are only required not to raise and to end exactly.
-    scale = max(abs(x1), abs(y1), abs(x2), abs(y2))
+    scale = max(abs(x1), abs(y1), abs(x2), abs(y2), min(abs(rx), abs(ry)))
     chord = math.hypot(x2 - x1, y2 - y1)
     if chord < 1e-6 * scale:
         cls.append("ill-conditioned(fenced)")
         r.classes = tuple(cls)
-        if not segs:
-            r.bad("near-coincident-dropped", f"end points differ (by {chord!r}) but the arc produced no segment at all: {case}")
-        elif segs[-1][2] != (x2, y2):
+        if not segs and large and chord >= 1e-11 * max(scale, abs(rx), abs(ry)):
+            # with the large-arc flag this is (almost) the whole ellipse (required while the gap is still resolvable in
+            # double precision relative to the radii: >= 1e-11); without it the omitted piece is shorter
+            # than 1e-6 of the scale and may vanish in rounding
+            r.bad("near-coincident-dropped", f"end points differ (by {chord!r}) and large-arc is set, but the arc produced no segment at all: {case}")
+        elif segs and segs[-1][2] != (x2, y2):
             r.bad("end-not-exact", f"last end point {segs[-1][2]} != arc end {(x2, y2)}")
         return r
     arc = centre_param(x1, y1, rx, ry, rot, large, sweep, x2, y2)
